@@ -45,6 +45,8 @@ Record wst := {
   cur2 : option N;      (* ksmgr.CurrentKeystore() as read again, later in the same call, by txmgr / findEligibleUtxos /
                            GetAllAddressesWithPubkey. Sequentially cur2 = cur; it is None after the background removal of
                            the selected wallet completed in between (asyncRemove does not take WalletManager.mu) *)
+  cur3 : option N;      (* … and as read a third time, after the store has been consulted: findEligibleUtxos naming the
+                           first selected address, the script closure of signWitnessTx *)
   st : store;
   taskchan : bool       (* h.taskChan has been created by the worker goroutine *)
 }.
@@ -53,20 +55,27 @@ Record wst := {
 Record fixes := {
   fx_cti_index : bool;    (* constructTxIn tests the output index against len(prevTx.TxOut) *)
   fx_cti_block : bool;    (* constructTxIn does not read block.Height of a nil block *)
+  fx_cti_dup : bool;      (* constructTxIn rejects an outpoint given twice (repair made for C02; no panic involved) *)
   fx_senders : bool;      (* CreateRawTransaction tests len(senders) *)
   fx_sign_meta : bool;    (* signWitnessTx does not read Height of a nil block meta *)
   fx_sign_len0 : bool;    (* signWitnessTx's index test does not underflow for a transaction without outputs *)
-  fx_cur_nil : bool;      (* txmgr / findEligibleUtxos / GetAllAddressesWithPubkey test CurrentKeystore() for nil *)
+  fx_cur_nil : bool;      (* txmgr (ExistsTx, ExistsUtxo, ScriptAddressBalance, ScriptAddressUnspents) test CurrentKeystore() for nil *)
+  fx_cur3_nil : bool;     (* findEligibleUtxos, the script closure of signWitnessTx and GetAllAddressesWithPubkey test their
+                             own, later read of CurrentKeystore() for nil *)
   fx_import_rec : bool;   (* asyncImport skips a transaction for which filterTxForImporting returns (nil, nil) *)
   fx_taskchan : bool;     (* the task queue exists before requests are served (or is nil-tested) *)
   fx_select_neg : bool    (* GetTxHistory treats wanted <= 0 as the default *)
 }.
 Definition all_fixed : fixes :=
-  {| fx_cti_index := true; fx_cti_block := true; fx_senders := true; fx_sign_meta := true; fx_sign_len0 := true;
-     fx_cur_nil := true; fx_import_rec := true; fx_taskchan := true; fx_select_neg := true |}.
+  {| fx_cti_index := true; fx_cti_block := true; fx_cti_dup := true; fx_senders := true; fx_sign_meta := true; fx_sign_len0 := true;
+     fx_cur_nil := true; fx_cur3_nil := true; fx_import_rec := true; fx_taskchan := true; fx_select_neg := true |}.
+(* the switches as /repo stands now *)
+Definition current_code : fixes :=
+  {| fx_cti_index := true; fx_cti_block := true; fx_cti_dup := true; fx_senders := true; fx_sign_meta := true; fx_sign_len0 := true;
+     fx_cur_nil := true; fx_cur3_nil := false; fx_import_rec := true; fx_taskchan := true; fx_select_neg := true |}.
 Definition as_found : fixes :=
-  {| fx_cti_index := false; fx_cti_block := false; fx_senders := false; fx_sign_meta := false; fx_sign_len0 := false;
-     fx_cur_nil := false; fx_import_rec := false; fx_taskchan := false; fx_select_neg := false |}.
+  {| fx_cti_index := false; fx_cti_block := false; fx_cti_dup := false; fx_senders := false; fx_sign_meta := false; fx_sign_len0 := false;
+     fx_cur_nil := false; fx_cur3_nil := false; fx_import_rec := false; fx_taskchan := false; fx_select_neg := false |}.
 
 (* ---------------------------------------------------------------- wire.NewHashFromStr *)
 (* at most 64 hex characters; the value of the hex numeral identifies the hash *)
@@ -79,14 +88,14 @@ Definition hash_from_str (s : str) : option N :=
 (* existsMsgTx -> TxStore.ExistsTx: begins with s.ksmgr.CurrentKeystore().Name() *)
 Definition exists_msg_tx (fx : fixes) (w : wst) (h : N) (i : Z) : outcome lookres :=
   match cur2 w with
-  | None => if fx_cur_nil fx then Err ErrBelow else Panic PExistsTxCurNil
+  | None => if fx_cur_nil fx then Ok NotFound else Panic PExistsTxCurNil      (* repaired: ErrNotFound *)
   | Some _ => Ok (st_credit (st w) h i)
   end.
 
 (* existsOutPoint -> TxStore.ExistsUtxo *)
 Definition exists_out_point (fx : fixes) (w : wst) (h : N) (i : Z) : outcome (option bool) :=
   match cur2 w with
-  | None => if fx_cur_nil fx then Err ErrBelow else Panic PExistsUtxoCurNil
+  | None => if fx_cur_nil fx then Ok None else Panic PExistsUtxoCurNil        (* repaired: ErrNotFound *)
   | Some _ => Ok (st_utxo (st w) h i)
   end.
 
@@ -127,16 +136,26 @@ Definition cti_one (fx : fixes) (w : wst) (i : inp) : outcome pclass :=
         end))
   end.
 
-Fixpoint cti_loop (fx : fixes) (w : wst) (inputs : list inp) : outcome (list pclass) :=
+Definition same_outpoint (i : inp) (hv : option N * Z) : bool :=
+  match hash_from_str (in_txid i), fst hv with
+  | Some a, Some b => (a =? b)%N && (in_vout i =? snd hv)
+  | _, _ => false
+  end.
+
+Fixpoint cti_loop (fx : fixes) (w : wst) (seen : list (option N * Z)) (inputs : list inp) : outcome (list pclass) :=
   match inputs with
   | [] => Ok []
-  | i :: r => bind (cti_one fx w i) (fun c => bind (cti_loop fx w r) (fun cs => Ok (c :: cs)))
+  | i :: r =>
+      if fx_cti_dup fx && existsb (same_outpoint i) seen && (match hash_from_str (in_txid i) with Some _ => true | None => false end)
+      then Err ErrBelow
+      else bind (cti_one fx w i) (fun c =>
+           bind (cti_loop fx w ((hash_from_str (in_txid i), in_vout i) :: seen) r) (fun cs => Ok (c :: cs)))
   end.
 
 Definition construct_tx_in (fx : fixes) (w : wst) (inputs : list inp) : outcome (list pclass) :=
   match cur w with
   | None => Err ErrAPINoWalletInUse
-  | Some _ => cti_loop fx w inputs
+  | Some _ => cti_loop fx w [] inputs
   end.
 
 (* ---------------------------------------------------------------- tx.go: estimateSignedSize / EstimateManualTxFee *)
@@ -179,9 +198,8 @@ Definition estimate_manual_tx_fee (fx : fixes) (w : wst) (inputs : list inp) : o
 Definition wm_create_raw_transaction (fx : fixes) (w : wst) (inputs : list inp) (change_empty : bool) (rest_ok : bool)
   : outcome unit :=
   bind (construct_tx_in fx w inputs) (fun senders =>
-  bind (if change_empty
-        then (if fx_senders fx && null senders then Err ErrBelow
-              else bind (idx PSenders0 senders 0) (fun _ => Ok tt))
+  bind (if fx_senders fx && null senders then Err ErrBelow
+        else if change_empty then bind (idx PSenders0 senders 0) (fun _ => Ok tt)
         else Ok tt) (fun _ =>
   bind (estimate_manual_tx_fee fx w inputs) (fun _ =>
   if rest_ok then Ok tt else Err ErrBelow))).
@@ -217,12 +235,20 @@ Fixpoint sign_loop (fx : fixes) (w : wst) (sign_ok : bool) (cache : list (N * (t
         | None => Err ErrBelow
         | Some true => Err ErrBelow                      (* spent: ErrDoubleSpend *)
         | Some false =>
-            bind (idx PSignIndex t i) (fun _ =>
+            bind (idx PSignIndex t i) (fun o =>
+            (* SignTxOutputWit asks the script closure for the redeem script of a script the reader accepts *)
+            bind (match ov_parse o with
+                  | None => Err ErrBelow
+                  | Some _ => match cur3 w with
+                              | None => if fx_cur3_nil fx then Err ErrBelow else Panic PSignScriptCurNil
+                              | Some _ => Ok tt
+                              end
+                  end) (fun _ =>
             if negb sign_ok then Err ErrBelow
             else match meta with
                  | None => if fx_sign_meta fx then sign_loop fx w sign_ok (snd ec) r else Panic PSignMetaNil
                  | Some _ => sign_loop fx w sign_ok (snd ec) r
-                 end)
+                 end))
         end))
   end.
 
@@ -256,8 +282,8 @@ Definition find_eligible (fx : fixes) (w : wst) (nsel : nat) : outcome unit :=
   bind (script_address_scan PUnspentsCurNil fx w) (fun _ =>
   match nsel with
   | O => Ok tt
-  | S _ => match cur2 w with
-           | None => if fx_cur_nil fx then Err ErrBelow else Panic PFindMaNil
+  | S _ => match cur3 w with
+           | None => if fx_cur3_nil fx then Err ErrBelow else Panic PFindMaNil
            | Some _ => Ok tt
            end
   end).
@@ -289,7 +315,7 @@ Definition wm_all_addresses_with_pubkey (fx : fixes) (w : wst) : outcome unit :=
   match cur w with
   | None => Err ErrAPINoWalletInUse               (* GetAddresses answers first *)
   | Some _ => match cur2 w with
-              | None => if fx_cur_nil fx then Err ErrBelow else Panic PPubkeyCurNil
+              | None => if fx_cur3_nil fx then Err ErrBelow else Panic PPubkeyCurNil
               | Some _ => Ok tt
               end
   end.
@@ -385,13 +411,21 @@ Section Handle.
     | RGetAddressBalance _ _ => bind (wm_balance PBalanceCurNil fx w true) (fun _ => answer e)
     | RGetUtxo _ => bind (wm_balance PUnspentsCurNil fx w true) (fun _ => answer e)
     | RGetAllAddressesWithPubkey => wm_all_addresses_with_pubkey fx w
-    | RCreateAddress _ => bind (wm_new_address w (e_next_addr e)) (fun _ => answer e)
+    | RCreateAddress _ =>
+        match cur w with
+        | None => Err ErrBelow          (* GetAddresses fails first; CreateAddress reports it as ErrAPIAbnormalData *)
+        | Some _ => bind (wm_new_address w (e_next_addr e)) (fun _ => answer e)
+        end
     | RCreateRawTransaction inputs _ _ change _ =>
         wm_create_raw_transaction fx w
           (map (fun i => {| in_txid := trim (in_txid i); in_vout := in_vout i |}) inputs)
           (null (trim change)) (e_rest_ok e)
     | RWmCreateRawTransaction inputs _ change_empty => wm_create_raw_transaction fx w inputs change_empty (e_rest_ok e)
-    | RAutoCreateTransaction _ _ _ _ _ | RCreateStakingTransaction _ _ _ _ _ => wm_auto_create fx w (e_selected e) (e_rest_ok e)
+    | RAutoCreateTransaction _ _ _ _ _ | RCreateStakingTransaction _ _ _ _ _ =>
+        match cur w with
+        | None => Err ErrBelow          (* the remaining argument checks (addresses, staking value, fee) or ErrNoWalletInUse *)
+        | Some _ => wm_auto_create fx w (e_selected e) (e_rest_ok e)
+        end
     | RGetTransactionFee _ inputs _ =>
         match cur w with
         | None => Err ErrAPINoWalletInUse
@@ -447,7 +481,7 @@ Definition wf_store (s : store) : Prop :=
     (forall h i b, st_utxo s h i = Some b -> 0 <= i < lenZ (txof h)).
 
 (* sequential use: nothing changes the current keystore between two reads of one call *)
-Definition sequential (w : wst) : Prop := cur2 w = cur w.
+Definition sequential (w : wst) : Prop := cur2 w = cur w /\ cur3 w = cur w.
 
 Definition wf (w : wst) : Prop := wf_store (st w).
 
@@ -475,7 +509,8 @@ Definition guarded_by (fx : fixes) (p : site) : bool :=
   | PCtiBlockNil => fx_cti_block fx
   | PSenders0 => fx_senders fx
   | PSignMetaNil => fx_sign_meta fx
-  | PExistsTxCurNil | PExistsUtxoCurNil | PBalanceCurNil | PUnspentsCurNil | PFindMaNil | PPubkeyCurNil => fx_cur_nil fx
+  | PExistsTxCurNil | PExistsUtxoCurNil | PBalanceCurNil | PUnspentsCurNil => fx_cur_nil fx
+  | PFindMaNil | PSignScriptCurNil | PPubkeyCurNil => fx_cur3_nil fx
   | PImportRecNil => fx_import_rec fx
   | PTaskChanNil => fx_taskchan fx
   | PSelectSlice => fx_select_neg fx
